@@ -28,7 +28,7 @@ RULE = (
     "Random element-only-or-text-only documents, serialised under two different indentation schemes (compact, 1/2/4 spaces, tab, "
     "CRLF newline) -> (a) Blank.stripBlank on the unstripped parse vs. XMLParser(remove_blank_text=True) and SepContent, "
     "(b) the 13-row table: formatter in {None, DiffFormatter, XmlDiffFormatter, XMLFormatter} x normalize in the four flag values, "
-    "via diff_texts and diff_files: empty script iff the parser strips, markup-free xml output iff any flag is set, non-empty and "
+    "via diff_texts and diff_files, and through diff_command with and without --keep-whitespace: empty script iff the parser strips, markup-free xml output iff any flag is set, non-empty and "
     "round-tripping script with WS_NONE. Non-trivial = document with >= 2 levels of child-bearing elements and two different "
     "non-compact schemes; distinct by the two serialisations."
 )
@@ -157,6 +157,31 @@ def _chunk(seed, lo, hi, extra):
                         st.failures.append({"sig": f"C14/reindentation-reported/{fname}/{norm}/{how}", **row})
                     if (not strips) and differs_raw and empty:
                         st.failures.append({"sig": f"C14/reindentation-ignored/{fname}/{norm}/{how}", **row})
+                if fname is not None and norm == 0:
+                    # the command line: --keep-whitespace is WS_NONE, its absence WS_BOTH (the statement names the flag)
+                    import contextlib, io
+                    for keep in (False, True):
+                        buf = io.StringIO()
+                        argv = [fa, fb, "-f", fname] + (["--keep-whitespace"] if keep else [])
+                        try:
+                            with contextlib.redirect_stdout(buf):
+                                main.diff_command(argv)
+                        except BaseException as e:  # noqa
+                            st.failures.append({"sig": f"C14/cli-raises/{type(e).__name__}/{fname}/keep={keep}", **row})
+                            continue
+                        out = buf.getvalue()
+                        if fname == "xml":
+                            marked = DIFF_NS in out or "diff:" in out
+                            if (not keep) and marked:
+                                st.failures.append({"sig": "C14/cli/xml-output-has-markup/normalised", "argv": argv[2:], **row})
+                            if keep and differs_raw and not marked:
+                                st.failures.append({"sig": "C14/cli/xml-output-lacks-markup/keep-whitespace", "argv": argv[2:], **row})
+                        else:
+                            empty = out.strip() == ""
+                            if (not keep) and not empty:
+                                st.failures.append({"sig": f"C14/cli/reindentation-reported/{fname}", "argv": argv[2:], **row})
+                            if keep and differs_raw and empty:
+                                st.failures.append({"sig": f"C14/cli/reindentation-ignored/{fname}/keep-whitespace", "argv": argv[2:], **row})
                 if fname == "diff" and norm == 0 and differs_raw:
                     try:
                         out = main.patch_text(via_text, a)
